@@ -504,9 +504,14 @@ func (p *Parser) PrefixExp(t *token.Token) (ast.ExpNode, *token.Token) {
 	var exp ast.ExpNode
 	switch t.Type {
 	case token.SgOpenBkt:
+		opTok := t
 		exp, t = p.Exp(p.Scan())
-		if f, ok := exp.(ast.FunctionCall); ok {
-			exp = f.InBrackets()
+		switch e := exp.(type) {
+		case ast.FunctionCall:
+			exp = e.InBrackets()
+		case ast.Etc:
+			// (...) is only the first value of ...
+			exp = ast.NewUnOp(opTok, ops.OpId, e)
 		}
 		expectType(t, token.SgCloseBkt, "')'")
 	case token.IDENT:
